@@ -765,6 +765,9 @@ def writeable_value(tag: dict, value: Union[bytes, TagValueType]) -> bytes:
 
     element_count = tag.get("element_count") or 1
     if element_count > 1:
+        if bit_field:
+            # the values would be packed as whole words under the single-bit mask: almost every bit ends up cleared
+            raise RequestError(f'A bit address takes a single value, not {{{element_count}}} - {tag["tag"]}')
         if len(value) < element_count:
             raise RequestError(
                 f"Insufficient data for requested elements, expected {element_count} and got {len(value)}"
